@@ -689,9 +689,14 @@ func uKey(v vfM) string {
 		if len(pl) >= 2 {
 			head = pl[:2]
 		}
-	case 98:
-		if len(pl) >= 24 {
+	case 98: // SN base + the mask words that are present (K bits): what follows the last mask word is XORed content
+		switch {
+		case len(pl) >= 20 && pl[18]&0x80 != 0:
+			head = pl[16:20]
+		case len(pl) >= 24 && pl[20]&0x80 != 0:
 			head = pl[16:24]
+		case len(pl) >= 32:
+			head = pl[16:32]
 		}
 	}
 
@@ -1104,6 +1109,17 @@ func uRunX(t *testing.T, sc *uScript, out *vfWriter, scribble, quiet bool, rb *u
 				e.mu.Lock()
 				e.okR[st.S]++
 				e.mu.Unlock()
+			}
+			if e.quiet && rerr == nil && !blocked && n >= 12 && n <= len(buf) {
+				// C13: what a Read hands to the application is an emission too (a buffering member returns an EARLIER
+				// packet, which it must have kept in memory of its own)
+				cp := append([]byte(nil), buf[:n]...)
+				var rp rtp.Packet
+				if uerr := rp.Unmarshal(cp); uerr == nil {
+					e.mu.Lock()
+					e.emis = append(e.emis, uEmis("read", &rp.Header, rp.Payload, true))
+					e.mu.Unlock()
+				}
 			}
 			if e.scribble && e.quiet && !blocked {
 				for i := range buf {
